@@ -175,5 +175,34 @@ for i,t in enumerate(TEMPL):
     c13.append(job(f"flags-hole5-{i}","rule/flags","VH_ParseHole",["C13/"],{"template":i,"maxlen":5},T,bounds=f"'{t} <hole>' with a hole of 0..5 symbolic ASCII bytes"))
 C["C13"]={"jobs":c13,"assumptions":RULE_ASSUME+["an unwinding failure (loop cap) or an allocation beyond the cap on a path whose bound comes from an input number is reported as the violation"],
    "outside":["more than two header words symbolic at once","flags.Parse side: see the flags jobs"]}
+
+FIELDS=["a0","a1","a2","a3","arch","auid","devmajor","devminor","dir","egid","euid","exe","exit","filetype","fsgid","fsuid","gid","inode","msgtype","obj_gid","obj_lev_high","obj_lev_low","obj_role","obj_type","obj_uid","obj_user","path","perm","pers","pid","ppid","saddr_fam","sgid","subj_clr","subj_role","subj_sen","subj_type","subj_user","success","suid","uid"]
+c06=[]
+FULL=("a0","uid","exit","msgtype","path")
+for i,f in enumerate(FIELDS):
+    if f in FULL:
+        c06.append(job("field-"+f,"rule","VH_EncodeFilter",["C06/"],{"field":i,"digits":10,"negdigits":9,"hexdigits":8,"octdigits":10,"strmax":3,"maxkeys":1},Q,expect=["C06/accepted"],
+           bounds=f"-F {f}<op><value>: every list x action x 8 operators; numeric values as 10 symbolic decimal digits / negative / 8 hex digits / octal (full uint32), names where the field takes names, strings of 0..3 symbolic bytes; 0..1 key of 0..2 symbolic bytes"))
+    else:
+        lst = 0
+        c06.append(job("field-"+f,"rule","VH_EncodeFilter",["C06/"],{"field":i,"list":lst,"numforms":1,"digits":6,"strmax":2,"maxkeys":1},QO,expect=["C06/accepted"],
+           bounds=f"-F {f}<op><value> on the exit list x action x 8 operators; numeric values as 6 symbolic decimal digits, names where the field takes names, strings of 0..2 symbolic bytes; 0..1 key"))
+        c06.append(job("fieldfull-"+f,"rule","VH_EncodeFilter",["C06/"],{"field":i,"digits":10,"negdigits":9,"hexdigits":8,"octdigits":10,"strmax":3,"maxkeys":1},T,expect=["C06/accepted"],
+           bounds=f"-F {f}: every list x action x operator x all number spellings"))
+for (a,b) in [("path","uid"),("exe","subj_user"),("a0","exit"),("key","dir")]:
+    if a=="key": continue
+    c06.append(job(f"two-{a}-{b}","rule","VH_EncodeFilter",["C06/"],{"field":FIELDS.index(a),"second":FIELDS.index(b),"list":0,"digits":5,"negdigits":3,"hexdigits":3,"octdigits":3,"strmax":2,"maxkeys":2},T,expect=["C06/accepted"],
+       bounds=f"two filters ({a}, {b}) on the exit list with 0..2 keys: order of triples and back-to-back strings"))
+c06.append(job("two-path-exe-quick","rule","VH_EncodeFilter",["C06/"],{"field":FIELDS.index("path"),"second":FIELDS.index("exe"),"list":0,"strmax":2,"maxkeys":2},QO,expect=["C06/accepted"],bounds="two string filters (path, exe) + 0..2 keys: strings back-to-back in order, joined keys"))
+c06.append(job("mask","rule","VH_EncodeMask",["C06/"],{"maxsys":2},T,expect=["C06/accepted"],bounds="0..2 syscalls, each a number of 1..4 symbolic digits < 2048, one of five names, or 'all'"))
+c06.append(job("mask-1","rule","VH_EncodeMask",["C06/"],{"maxsys":1},QO,expect=["C06/accepted"],bounds="0..1 syscall: a number of 1..4 symbolic digits < 2048, one of five names, or 'all'"))
+c06.append(job("mask-3","rule","VH_EncodeMask",["C06/"],{"maxsys":3},T,expect=["C06/accepted"],bounds="0..3 syscalls"))
+for n in (0,1,2,63,64,65):
+    c06.append(job(f"many-{n}","rule","VH_EncodeMany",["C06/"],{"filters":n,"key":1},Q,bounds=f"{n} pid filters with symbolic values + one key ({n+1} fields)"))
+c06.append(job("many-64-nokey","rule","VH_EncodeMany",["C06/"],{"filters":64,"key":0},Q,bounds="64 filters, no key"))
+c06.append(job("watch","rule","VH_EncodeWatch",["C06/"],{},Q,bounds="file watches on a file, a directory and a non-existing path with a symbolic leaf (Stat stub), all 16 permission subsets, with/without key"))
+C["C06"]={"jobs":c06,"assumptions":RULE_ASSUME+["UAPI constants and struct offsets come from /usr/include/linux/audit.h of this image via a compiled C program (uapi/extract.py); the field-name -> macro map is transcribed from audit-userspace's fieldtab.h",
+   "the Rule struct is built directly (flag text parsing is C07/C14's subject)","the top 16 bits of the last mask word are not constrained for the all-syscalls pattern (kernel syscall-class bits)"],
+   "outside":["strings longer than 3 symbolic bytes (length limits are checked by C13's concrete long strings)","user/group names other than root","-C comparisons (planned)"]}
 json.dump(C,open('/verif/checks.json','w'),indent=1)
 print({k:len(v["jobs"]) for k,v in C.items()})
